@@ -178,6 +178,12 @@ def wsEff (T : Table) : Nat → Bool → Seeded → Eff → Option Seeded
 def wellSeeded (T : Table) (effs : List Eff) : Bool :=
   (wsFold (wsEff T T.length true) (some Seeded.none) effs).isSome
 
+/-- `n` has an entry in the table and that entry obeys the discipline (`false` when there is no entry) -/
+def entryOk (T : Table) (n : String) : Bool :=
+  match T.lookup n with
+  | some effs => wellSeeded T effs
+  | .none => false
+
 /-! ### diagnostics used by the driver (not part of any theorem) -/
 
 /-- index of the first top-level effect at which the discipline fails -/
